@@ -171,16 +171,20 @@ CLAIMS = {
         technique="Lean 4 structural theorems over all answers (values and failures) of chip and bus + fault injection at each transfer index with recovery traffic",
         design="7 C11"),
     'C12': dict(
-        text="Proof for the encode clauses and the carrier decode; tables/monitors for the other decoders. The float code is modelled in "
+        text="Proof for the encode clauses and for the decoders (carrier, frequency error in both modulations, packet strength, SNR, FSK RSSI, LoRa bandwidth); the closest-value claim for arbitrary receiver bandwidths and the raw temperature by monitors. The float code is modelled in "
              "soft-float over Rat (compared bit for bit with gcc on every run); general facts about round-to-nearest are proved once "
-             "(Sx/Lemmas/Rnd.lean, the only files importing Mathlib modules: relative error 2^-p, exactness on integers and dyadics, "
+             "(Sx/Lemmas/Rnd.lean, FloatOps.lean, FloatSigned.lean - the only files importing Mathlib modules: relative error 2^-p, exactness on integers and dyadics, rounding is odd, "
              "floor(rnd x) >= floor x). Theorems, each for EVERY request in the documented range: C12_set_frequency (all 883 000 001 carriers "
              "137..1020 MHz in 1 Hz steps: the three bytes are the 24-bit value whose realised frequency is within 250 Hz), C12_get_frequency "
              "(every non-zero 24-bit RegFrf content decodes within 250 Hz), C12_fdev (600..200000 Hz: within one Fstep, 14 bits), "
              "C12_ook_bitrate and C12_fsk_bitrate / C12_fsk_bitrate_bits (every rate in range, for FSK every binary32 bit pattern — the "
              "conversion to double is proved exact: 32 MHz/(v+1) < rate <= 32 MHz/v (1+2^-24) resp. 512 MHz with 2^-53, i.e. within one "
-             "divider step), C12_snr (all 256 values exactly value/4), C12_fsk_rssi. Receiver/AFC bandwidth selection, packet RSSI with SNR "
-             "refinement, frequency error, temperature: decided by the decode/closest-value monitors on the real driver only.",
+             "divider step), C12_snr (all 256 values exactly value/4), C12_fsk_rssi, C12_packet_rssi (every RegPktRssiValue x RegPktSnrValue x port offset: the "
+             "single-precision sum is exact, the result is the datasheet formula truncated toward zero), C12_fsk_frequency_error (all 65536 AFC readings: "
+             "within 9/8 Hz of AFC*Fstep, two's complement), C12_lora_frequency_error (all 2^20 RegFei readings x the ten bandwidths: within 9/8 Hz of "
+             "FreqError*2^24/Fxosc*BW/500kHz; four roundings, the inexact constant and the truncation accounted for), C12_lora_bandwidth_decode, "
+             "C12_rx_bandwidth_table (each of the 21 datasheet receiver bandwidths is programmed with its datasheet code; kernel-decided). That an ARBITRARY "
+             "requested bandwidth gets the closest of the 21 points, and the raw temperature decode, are decided by the monitors on the real driver only.",
         technique="Lean 4 rounding-error analysis (general lemmas about round-to-nearest) for all inputs + kernel tables + float sweeps on the real driver",
         design="7 C12"),
     'C13': dict(
